@@ -390,6 +390,45 @@ type genFixed2 struct {
 	U uint8   `json:"u"`
 }
 
+// gNode is a self-referential generic type: every instantiation is a distinct
+// recursive Go type that is new to the process the first time a schema is
+// generated for it (reflect.StructOf cannot mint recursive types).
+type gNode[T any] struct {
+	Next *gNode[T]  `json:"next,omitempty"`
+	Val  T          `json:"val"`
+	Kids []gNode[T] `json:"kids"`
+}
+
+type gPair[A, B any] struct {
+	A A `json:"a"`
+	B B `json:"b"`
+}
+
+func recRow[A any]() []any {
+	return []any{
+		&gNode[gPair[A, int8]]{}, &gNode[gPair[A, int16]]{}, &gNode[gPair[A, int32]]{}, &gNode[gPair[A, int64]]{},
+		&gNode[gPair[A, uint8]]{}, &gNode[gPair[A, uint16]]{}, &gNode[gPair[A, uint32]]{}, &gNode[gPair[A, string]]{},
+		&gNode[gPair[A, bool]]{}, &gNode[gPair[A, float32]]{}, &gNode[gPair[A, float64]]{}, &gNode[gPair[A, []string]]{},
+	}
+}
+
+var recTypes = func() []any {
+	var t []any
+	t = append(t, recRow[int8]()...)
+	t = append(t, recRow[int16]()...)
+	t = append(t, recRow[int32]()...)
+	t = append(t, recRow[int64]()...)
+	t = append(t, recRow[uint8]()...)
+	t = append(t, recRow[uint16]()...)
+	t = append(t, recRow[string]()...)
+	t = append(t, recRow[bool]()...)
+	t = append(t, recRow[float32]()...)
+	t = append(t, recRow[float64]()...)
+	t = append(t, recRow[[]int]()...)
+	t = append(t, recRow[map[string]int]()...)
+	return t
+}()
+
 // genValue returns a value whose type is either compiled in or minted for
 // this run with reflect.StructOf (distinct field names per run, so the type
 // cache of the generator starts cold without any reset hook).
@@ -401,6 +440,13 @@ func genValue(t string, marker string) any {
 		return genFixed2{}
 	case t == "fixed:inner":
 		return genInner{}
+	case strings.HasPrefix(t, "rec:"):
+		k := 0
+		fmt.Sscanf(t, "rec:%d", &k)
+		if k < 0 {
+			k = -k
+		}
+		return recTypes[k%len(recTypes)]
 	case strings.HasPrefix(t, "dyn:"):
 		n := 0
 		fmt.Sscanf(t, "dyn:%d", &n)
